@@ -2,112 +2,95 @@
    Only statements closed by [exact]; the model is Parent/Arena.v (faithful to src/ast/parent.rs), the
    specification Parent/Tree.v ([node_at], [parent_of]: the parent BY POSITION), proofs in Parent/ArenaProofs.v.
 
-   [fx : bool] selects the variant of the code that is modelled: false = /repo as it is, true = /repo with the
-   proposed repair of Type2::Unwrap (design.d/C20-fix-unwrap-generic-args.patch). The check decides which one the
-   working tree implements by replaying `a = ~b<int>`, and compares the crate with that variant exactly.
+   The model carries a switch [fx] for the Type2::Unwrap arm of visit_type2. [fx = true] is the code as it is
+   (since /repo commit 2a3eb9a the generic arguments of `~name<args>` are registered like those of Typename and
+   ChoiceFromGroup); [fx = false] is the code before that repair and is kept only to document the fixed finding
+   (C20_unwrap_args_indexed). Every statement below is about [fx = true]; the check runs the extracted model with
+   [fx = true] only, so the old behaviour coming back is a VIOLATION.
 
    FULL statement of the property (together with C20_build_succeeds and C20_root_no_parent):
        forall t p n, node_at t p = Some n ->
-         query_tree false t (label n) = option_map label (parent_of t p).
-   It is FALSE of the faithful model, and of the code (both witnesses are replayed on the real crate by the check):
-     - C20_parent_refuted:           two nodes that are equal under the crate's == but sit under different parents
-                                     (`a = [int, int]`): the arena keeps one entry per equivalence class and the first
-                                     registered parent wins (also after the repair: C20_parent_refuted_fixed);
-     - C20_parent_unindexed_refuted: the generic arguments of `~name<args>` are never registered
-                                     (visit_type2, Type2::Unwrap).
-   What does hold is proved below: the exact answer of the algorithm (C20_query_is_first_registered), the exact
-   class of wrong answers (C20_collision_iff), and the property itself outside the two classes
-   (C20_parent_correct_partial: the excluded classes are [NoDup (labels_preorder t)] failing and
-   [reg_path fx t p = false]; C20_parent_correct_fixed: with the repair only the first class remains). *)
+         query_tree true t (label n) = option_map label (parent_of t p).
+   It is FALSE of the faithful model, and of the code (the witness is replayed on the real crate by the check):
+     - C20_parent_refuted: two nodes that are equal under the crate's == but sit under different parents
+       (`a = [int, int]`): the arena keeps one entry per equivalence class and the first registered parent wins
+       (open finding kf-c20-equal-nodes-share-first-parent).
+   What holds: the full statement whenever no two nodes of the document are equal (C20_parent_correct: the excluded
+   class is [NoDup (labels_preorder t)] failing), the exact answer of the algorithm in general
+   (C20_query_is_first_registered) and the exact class of wrong answers (C20_collision_iff). *)
 From Coq Require Import List NArith.
 From Cddl Require Import Parent.Tree Parent.Arena Parent.ArenaProofs.
 Import ListNotations.
 Open Scope N_scope.
 
-(* building the index never fails: no Err (Error::Overwrite is never constructed) and no index out of range *)
-Theorem C20_build_succeeds : forall fx t, exists a, build fx t = Some a.
-Proof. exact build_succeeds. Qed.
-
-(* the registrations performed by the traversal are exactly the syntactic (parent, child) edges of the nodes it
-   reaches: nothing is attached to a grandparent or a sibling, and no reached child is forgotten *)
-Theorem C20_visit_spec : forall fx t p lp lc,
-  In (Ev p lp lc) (visit fx [] t) <->
-  p <> [] /\ reg_path fx t p = true /\
-  exists n q, node_at t p = Some n /\ parent_of t p = Some q /\ label n = lc /\ label q = lp.
-Proof. exact visit_spec. Qed.
-
-(* what a query returns, always: the parent of the FIRST registered node whose value is equal *)
-Theorem C20_query_is_first_registered : forall fx t l,
-  (first_reg fx t l = None /\ query_tree fx t l = None) \/
-  (exists p' n' q', first_reg fx t l = Some p' /\ p' <> [] /\ reg_path fx t p' = true /\
-                    node_at t p' = Some n' /\ label n' = l /\ parent_of t p' = Some q' /\
-                    query_tree fx t l = Some (label q')).
-Proof. exact query_is_first_registered. Qed.
-
-Theorem C20_first_reg_earliest : forall fx t l p', first_reg fx t l = Some p' ->
-  exists pre e post, visit fx [] t = pre ++ e :: post /\ ev_path e = p' /\ ev_child e = l /\
-                     forall x, In x pre -> ev_child x <> l.
-Proof. exact first_reg_earliest. Qed.
-
-(* the property, where no two nodes of the document are equal and the node is reached by the registrations *)
-Theorem C20_parent_correct_partial : forall fx t, NoDup (labels_preorder t) ->
-  forall p n, node_at t p = Some n -> reg_path fx t p = true ->
-  query_tree fx t (label n) = option_map label (parent_of t p).
-Proof. exact parent_correct. Qed.
-
-Theorem C20_parent_correct_fixed : forall t, NoDup (labels_preorder t) ->
+(* HEADLINE: in a document without two equal nodes, the parent query at EVERY node (by position) returns its
+   syntactic parent, and None at the root *)
+Theorem C20_parent_correct : forall t, NoDup (labels_preorder t) ->
   forall p n, node_at t p = Some n -> query_tree true t (label n) = option_map label (parent_of t p).
 Proof. exact parent_correct_fixed. Qed.
 
-Theorem C20_unindexed_none : forall fx t, NoDup (labels_preorder t) ->
-  forall p n, node_at t p = Some n -> reg_path fx t p = false -> query_tree fx t (label n) = None.
-Proof. exact unindexed_none. Qed.
+(* building the index never fails: no Err (Error::Overwrite is never constructed) and no index out of range *)
+Theorem C20_build_succeeds : forall t, exists a, build true t = Some a.
+Proof. exact (build_succeeds true). Qed.
+
+(* the registrations performed by the traversal are exactly the syntactic (parent, child) edges of the document:
+   nothing is attached to a grandparent or a sibling, and no node is forgotten *)
+Theorem C20_visit_spec : forall t p lp lc,
+  In (Ev p lp lc) (visit true [] t) <->
+  p <> [] /\ exists n q, node_at t p = Some n /\ parent_of t p = Some q /\ label n = lc /\ label q = lp.
+Proof. exact visit_spec_now. Qed.
+
+(* what a query returns, always: the parent of the FIRST registered node whose value is equal *)
+Theorem C20_query_is_first_registered : forall t l,
+  (first_reg true t l = None /\ query_tree true t l = None) \/
+  (exists p' n' q', first_reg true t l = Some p' /\ p' <> [] /\ node_at t p' = Some n' /\
+                    label n' = l /\ parent_of t p' = Some q' /\ query_tree true t l = Some (label q')).
+Proof. exact query_is_first_registered_now. Qed.
+
+Theorem C20_first_reg_earliest : forall t l p', first_reg true t l = Some p' ->
+  exists pre e post, visit true [] t = pre ++ e :: post /\ ev_path e = p' /\ ev_child e = l /\
+                     forall x, In x pre -> ev_child x <> l.
+Proof. exact (first_reg_earliest true). Qed.
 
 (* the root has no parent (no other node can be equal to it: it is the only CDDLType::CDDL value) *)
-Theorem C20_root_no_parent : forall fx t,
-  ~ In (label t) (flat_map labels_preorder (children t)) -> query_tree fx t (label t) = None.
-Proof. exact root_no_parent. Qed.
+Theorem C20_root_no_parent : forall t,
+  ~ In (label t) (flat_map labels_preorder (children t)) -> query_tree true t (label t) = None.
+Proof. exact (root_no_parent true). Qed.
 
-(* a reached node gets a wrong answer exactly when the first registered node with an equal value has a
-   parent that is not equal to this node's parent *)
-Theorem C20_collision_iff : forall fx t p n q,
-  node_at t p = Some n -> parent_of t p = Some q -> reg_path fx t p = true ->
-  (query_tree fx t (label n) <> Some (label q) <->
-   exists p' n' q', first_reg fx t (label n) = Some p' /\ node_at t p' = Some n' /\ label n' = label n /\
+(* a node gets a wrong answer exactly when the first registered node with an equal value has a parent that is
+   not equal to this node's parent *)
+Theorem C20_collision_iff : forall t p n q,
+  node_at t p = Some n -> parent_of t p = Some q ->
+  (query_tree true t (label n) <> Some (label q) <->
+   exists p' n' q', first_reg true t (label n) = Some p' /\ node_at t p' = Some n' /\ label n' = label n /\
                     parent_of t p' = Some q' /\ label q' <> label q).
-Proof. exact collision_iff. Qed.
+Proof. exact collision_iff_now. Qed.
 
-(* known finding kf-c20-equal-nodes-share-first-parent *)
+(* open finding kf-c20-equal-nodes-share-first-parent *)
 Theorem C20_parent_refuted : exists t p n,
-  node_at t p = Some n /\ reg_path false t p = true /\
-  query_tree false t (label n) <> option_map label (parent_of t p).
-Proof. exact parent_refuted. Qed.
-
-Theorem C20_parent_refuted_fixed : exists t p n,
   node_at t p = Some n /\ query_tree true t (label n) <> option_map label (parent_of t p).
 Proof. exact parent_refuted_fixed. Qed.
 
-(* known finding kf-c20-unwrap-generic-args-not-indexed *)
-Theorem C20_parent_unindexed_refuted : exists t p n,
-  NoDup (labels_preorder t) /\ node_at t p = Some n /\
-  query_tree false t (label n) <> option_map label (parent_of t p).
-Proof. exact parent_unindexed_refuted. Qed.
+(* fixed finding (commit 2a3eb9a), regression witness `a = ~b<int>`: the GenericArgs node (label 9) had no parent
+   before the repair and reports the Type2::Unwrap node (label 7) now *)
+Theorem C20_unwrap_args_indexed :
+  query_tree false doc_unwrap_args 9 = None /\ query_tree true doc_unwrap_args 9 = Some 7 /\
+  option_map label (parent_of doc_unwrap_args path_unwrap_args) = Some 7.
+Proof. exact unwrap_args_indexed_now. Qed.
 
-(* non-vacuity: `a = ~b<int>` has pairwise distinct nodes; the identifier b below the unwrap is reached and
-   its query returns the Type2 (label 7); the second TypeGroupnameEntry of `a = [int, int]` (parent: the GroupEntry
-   labelled 13) gets the first GroupEntry (label 10), the first registration of its label being the first entry *)
+(* non-vacuity: `a = ~b<int>` has pairwise distinct nodes, so C20_parent_correct applies to it, e.g. at the
+   identifier `int` inside the generic argument; the second TypeGroupnameEntry of `a = [int, int]` (parent: the
+   GroupEntry labelled 13) gets the first GroupEntry (label 10), the first registration of its label being the first entry *)
 Example C20_example_correct :
   NoDup (labels_preorder doc_unwrap_args) /\
-  node_at doc_unwrap_args [0; 0; 1; 0; 0; 0; 0]%nat = Some (Node 11 8 []) /\
-  reg_path false doc_unwrap_args [0; 0; 1; 0; 0; 0; 0]%nat = true /\
-  query_tree false doc_unwrap_args 8 = Some 7 /\
-  option_map label (parent_of doc_unwrap_args [0; 0; 1; 0; 0; 0; 0]%nat) = Some 7 /\
-  query_tree false doc_unwrap_args 9 = None /\ query_tree true doc_unwrap_args 9 = Some 7.
+  node_at doc_unwrap_args [0; 0; 1; 0; 0; 0; 1; 0; 0; 0; 0]%nat = Some (Node 11 13 []) /\
+  query_tree true doc_unwrap_args 13 = Some 12 /\
+  option_map label (parent_of doc_unwrap_args [0; 0; 1; 0; 0; 0; 1; 0; 0; 0; 0]%nat) = Some 12.
 Proof. split; [apply nodupb_NoDup; vm_compute; reflexivity|]. vm_compute. repeat split. Qed.
 
 Example C20_example_collision :
-  query_tree false doc_int_int 11 = Some 10 /\
+  query_tree true doc_int_int 11 = Some 10 /\
   option_map label (parent_of doc_int_int path_second_tge) = Some 13 /\
-  first_reg false doc_int_int 11 = Some [0; 0; 1; 0; 0; 0; 0; 0; 0; 0]%nat /\
-  query_tree false doc_int_int 12 = Some 11.
+  first_reg true doc_int_int 11 = Some [0; 0; 1; 0; 0; 0; 0; 0; 0; 0]%nat /\
+  query_tree true doc_int_int 12 = Some 11.
 Proof. vm_compute. repeat split. Qed.
